@@ -140,6 +140,7 @@ impl Vm {
     //@  subst "class.name.as_str().to_owned()" => "class_name_owned(class)"
     //@  subst "\"exception\".to_owned()" => "exception_owned()"
     //@  subst "let msg = format!(\"Unhandled {}: {}\", exc_description, context); let lines = msg.lines().collect::<Vec<_>>(); Error::with_messages(kind, &lines)" => "unhandled_error(kind, exc_description, context)"
+    //@  at body.start broadcast use axiom_error_classes_distinct;
     //@  ensures value matches Value::ObjInstance(i) ==> r.kind == kind_for_class(i.obj().v.class.id())
     //@  ensures !(value is ObjInstance) ==> r.kind is RuntimeError
     //@end
